@@ -13,6 +13,8 @@ Call(o) == [a |-> o.a, arg |-> o.arg]
 GenInit == Init /\ hist = <<Call(obs)>>
 GenNext == Next /\ hist' = Append(hist, Call(obs'))
 GenSpec == GenInit /\ [][GenNext]_<<vars, hist>>
+GenNextM == Modify /\ hist' = Append(hist, Call(obs'))      \* modifying calls only
+GenSpecM == GenInit /\ [][GenNextM]_<<vars, hist>>
 Full  == <<live, hp, name, val>>
 \* states that differ by a renaming of the handles are explored once
 ListShape(s) == [i \in 1..Len(s) |-> Shape(fo, name, val, s[i])]
